@@ -3,13 +3,14 @@
 ones under /verif/seeded/<Cxx>-<tag>/ (patch.diff, demo.rs, meta.json)."""
 import glob, json, os, re, shutil, subprocess, sys
 wt, prop = sys.argv[1], sys.argv[2]
+tagp = sys.argv[3] if len(sys.argv) > 3 else ""
 for pf in sorted(glob.glob(os.path.join(wt, "DELIVER", "patch_*.diff"))):
     k = re.search(r"patch_(\w+)\.diff", pf).group(1)
     r = subprocess.run(["/verif/tools/confirm_seed.sh", wt, k, prop], stdout=subprocess.PIPE, text=True)
     print(r.stdout.strip())
     if "CONFIRMED (" not in r.stdout:
         continue
-    d = "/verif/seeded/%s-%s" % (prop, k)
+    d = "/verif/seeded/%s-%s%s" % (prop, tagp, k)
     os.makedirs(d, exist_ok=True)
     shutil.copy(pf, os.path.join(d, "patch.diff"))
     shutil.copy(os.path.join(wt, "DELIVER", "demo_%s.rs" % k), os.path.join(d, "demo.rs"))
